@@ -171,7 +171,8 @@ PROPS = {
     },
     "C12": {
         "jobs": [{"cmd": "conc", "quick": 10, "thorough": 300, "race": True, "timeout": 6000, "project": sess_project()},
-                 {"cmd": "slow", "quick": 12, "thorough": 400, "race": True, "timeout": 6000}],
+                 {"cmd": "slow", "quick": 12, "thorough": 400, "race": True, "timeout": 6000},
+                 {"cmd": "sharedimg", "quick": 8, "thorough": 300, "race": True, "timeout": 6000}],
         "rule": "2..8 (thorough: 2..64) concurrent clients against one real server built with -race, GOMAXPROCS 1..16: each client issues 10..50 requests "
                 "over the shared read-only subtree (opens, reads of up to 70 KB through the pooled buffers, listings, dir-size) and over its own private "
                 "writable subtree (uploads, mkdir/rmdir, delete); each client's response stream is compared with the model's prediction for that client "
@@ -179,7 +180,10 @@ PROPS = {
                 "synchronous pipes, each reading its own 400 KB file of a distinct pattern with READ_FILE and READ_FILE_CRITICAL (1..100000 bytes); in every "
                 "round some clients leave their response undrained (the server blocks in Write with the data in its transfer buffer) while the others "
                 "are served, then drain; every third round one stalled client reads a part of its answer, drops the connection and comes back on a new "
-                "one (connection churn): every response must announce and carry that client's own bytes",
+                "one (connection churn): every response must announce and carry that client's own bytes; job sharedimg: 2..6 clients open the same "
+                "directory as a generated image at the same moment (a tree of a few hundred files, so that the opens overlap with the scan), read "
+                "different ranges in an interleaved order, close their file or drop the connection and come back while the others go on: every answer "
+                "must be the bytes a lone client reads (volume time fields masked)",
         "assumptions": ["request handling is the atomic step of a schedule in the model; the Go memory model is not modelled"],
         "partial": ["the theorem covers schedules in which nothing writes; isolation of clients that write to private subtrees and freedom from data races are "
                     "decided by the -race differential only"],
